@@ -7,5 +7,6 @@ CONSTANTS
   FirstCap = 0
   Roots = {1, 2}
   Dev = "GlobalFetchLock"
+  Tolerant = FALSE
 INVARIANTS LTypeOK ErrorIffNothing
 CHECK_DEADLOCK FALSE
